@@ -232,6 +232,7 @@ type Monitors struct {
 	Format     bool // D's decoding of the file == API dump (C12)
 	FreeExact  bool // freelist export == D's unreachable set at every reopen/commit (C13/C10)
 	DeepDump   bool
+	Backups    bool // every third commit: a backup (CopyFile) from the write transaction before it commits and from a read transaction after; D must read both (C12/C14)
 }
 
 // Stats collected while running.
@@ -256,6 +257,7 @@ type RunStats struct {
 	PageToInline int
 	EmptyLeafCur int // cursor calls made while the tx had emptied ranges
 	ErrProbes    int
+	Backups      int
 	Transitions  map[string]int
 	Transcript   string
 	LastDecode   *decode.Result `json:"-"`
@@ -474,6 +476,9 @@ func (r *Runner) quiescent(what string) {
 					r.fail("inspect", "%s: Inspect %s, model %s", what, ins.String(), want.String())
 				}
 			}
+			if r.Mon.Backups && r.Stats.Commits%3 == 1 {
+				r.backupOracle(tx, ModelDump(r.Sim.Committed), "a read transaction")
+			}
 			if r.Mon.TxCheck {
 				r.Stats.TxChecks++
 				if errs := CheckTx(tx); len(errs) > 0 {
@@ -644,6 +649,10 @@ func (r *Runner) doStep(st *gen.Step) {
 	if st.Op == "commit" && st.How == "maxsize" && r.Tx != nil {
 		r.commitMaxSize()
 		return
+	}
+	if st.Op == "commit" && r.Mon.Backups && r.Tx != nil && r.Tx.Writable() && r.Stats.Commits%3 == 0 {
+		// the file does not hold this transaction's changes yet: the copy must be the state it started from
+		r.backupOracle(r.Tx, ModelDump(r.Sim.Committed), "a write transaction before its commit")
 	}
 	if r.managed != nil && (st.Op == "commit" || st.Op == "rollback") {
 		r.Sim.Apply(st)
@@ -1314,5 +1323,40 @@ func (r *Runner) endHeld(i int) {
 	}
 	if err := h.tx.Rollback(); err != nil {
 		r.fail("rollback", "held reader Rollback: %v", err)
+	}
+}
+
+// backupOracle copies the database through tx and has the independent decoder read the copy.
+func (r *Runner) backupOracle(tx *bolt.Tx, want []string, what string) {
+	p := r.Path + ".bak"
+	defer os.Remove(p)
+	size := tx.Size()
+	if err := tx.CopyFile(p, 0600); err != nil {
+		r.fail("backup", "CopyFile from %s: %v", what, err)
+		return
+	}
+	img, err := os.ReadFile(p)
+	if err != nil {
+		r.fail("backup", "backup unreadable: %v", err)
+		return
+	}
+	r.Stats.Backups++
+	if int64(len(img)) != size {
+		r.fail("backup:size", "backup from %s has %d bytes, tx.Size() = %d", what, len(img), size)
+	}
+	d := decode.Decode(img, decode.Options{NoParity: true})
+	for slot := 0; slot < 2; slot++ {
+		if !d.Metas[slot].Valid {
+			r.fail("backup:meta", "meta page %d of a backup taken from %s is not a valid checksummed meta: %s", slot, what, d.Metas[slot].Why)
+		}
+	}
+	if len(d.Errors) > 0 {
+		r.fail("backup:decode", "independent decoder on a backup taken from %s: %s", what, d.Errors[0])
+		return
+	}
+	if d.Content != nil {
+		if diff := model.DiffDumps(want, ModelDump(d.Content)); diff != "" {
+			r.fail("backup:content", "backup taken from %s decodes to a different content: %s", what, diff)
+		}
 	}
 }
